@@ -27,7 +27,7 @@ World::World(const Desc& desc, Maker mk, bool model) : d(&desc), make(mk), is_mo
     env.root_post = &root_post_cb;
     env.root_ctx = this;
 }
-World::World(const World& o) : d(o.d), env(o.env), started(o.started), make(o.make), is_model(o.is_model),
+World::World(const World& o) : d(o.d), env(o.env), started(o.started), moved(o.moved), make(o.make), is_model(o.is_model),
     observe_each(o.observe_each), aborted(o.aborted), abort_msg(o.abort_msg), op_index(o.op_index), ops_done(o.ops_done) {
     for (auto& r : o.reps) reps.emplace_back(r ? r->clone() : nullptr);
     for (size_t i = 0; i < reps.size(); ++i)
@@ -43,6 +43,7 @@ void World::refresh_extents() {
 int World::add_replica(IMachine* m) {
     reps.emplace_back(m);
     started.push_back(0);
+    moved.push_back(0);
     int idx = (int)reps.size() - 1;
     if (is_model && m) static_cast<Model*>(m)->set_rep(idx);
     refresh_extents();
@@ -60,6 +61,7 @@ bool World::machine_active(const Snap& s, int mi) const {
 
 void World::observe_quiescent(int rep) {
     if (rep < 0 || rep >= (int)reps.size() || !reps[rep]) return;
+    if (moved[rep]) return;   // the state of a moved-from machine is unspecified (C15: destroy or assign only)
     Snap s;
     bool was = env.enabled;
     env.enabled = false;
@@ -70,7 +72,9 @@ void World::observe_quiescent(int rep) {
             for (size_t r = 0; r < s.active[mi].size(); ++r)
                 env.log_simple(K_SNAP, rep, (int)mi, (int)mi, (int)((r << 16) | (uint32_t)(s.active[mi][r] & 0xffff)));
         env.log_simple(K_Q, rep, (int)mi, (int)mi, (s.qmsg[mi] << 16) | (s.qdef[mi] & 0xffff));
-        if (s.busy[mi] >= 0) env.log_simple(K_BUSY, rep, (int)mi, (int)mi, s.busy[mi]);
+        // the processing flag matters for machines that are part of the active configuration (a machine that
+        // is not active does not receive events; its flag is re-initialised when it is entered again)
+        if (s.busy[mi] >= 0 && started[rep] && machine_active(s, (int)mi)) env.log_simple(K_BUSY, rep, (int)mi, (int)mi, s.busy[mi]);
         for (size_t r = 0; r < s.hist[mi].size(); ++r)
             env.log_simple(K_HIST, rep, (int)mi, (int)mi, (int)((r << 16) | (uint32_t)(s.hist[mi][r] & 0xffff)));
     }
@@ -120,6 +124,13 @@ void World::exec(const Op& op, int idx) {
     if (reps.empty()) add_replica(make(0));
     if (on < 0 || on >= (int)reps.size() || !reps[on]) { ++ops_done; return; } // op on a missing replica: no-op
     IMachine& m = *reps[on];
+    if (moved[on] && op.kind != OP_ASSIGN && op.kind != OP_MOVE_ASSIGN && op.kind != OP_DESTROY) { ++ops_done; return; }
+    if ((op.kind == OP_ASSIGN || op.kind == OP_MOVE_ASSIGN) && op.other >= 0 && op.other < (int)reps.size() && moved[op.other]) { ++ops_done; return; }
+    // API preconditions (the properties quantify over histories between start() and stop()): an op that
+    // violates them -- only minimisation can produce one -- is a no-op
+    if (op.kind == OP_START && started[on]) { ++ops_done; return; }
+    if (!started[on] && (op.kind == OP_STOP || op.kind == OP_PROCESS || op.kind == OP_SUBPROCESS || op.kind == OP_ENQUEUE ||
+                         op.kind == OP_DEFER || op.kind == OP_DRAIN || op.kind == OP_DRAIN1)) { ++ops_done; return; }
     try {
         switch (op.kind) {
             case OP_START: m.start(); started[on] = 1; break;
@@ -145,6 +156,7 @@ void World::exec(const Op& op, int idx) {
                     m.assign_from(*reps[op.other]);
                     env.enabled = true;
                     started[on] = started[op.other];
+                    moved[on] = 0;
                     env.copy_latches(op.other, on);
                     refresh_extents();
                 }
@@ -160,6 +172,7 @@ void World::exec(const Op& op, int idx) {
                     env.copy_latches(on, n);
                     // the moved-from machine stays around: it may only be destroyed or assigned to
                     started[on] = 0;
+                    moved[on] = 1;
                 }
                 break;
             }
@@ -171,6 +184,8 @@ void World::exec(const Op& op, int idx) {
                     if (ok) {
                         started[on] = started[op.other];
                         started[op.other] = 0;
+                        moved[on] = 0;
+                        moved[op.other] = 1;
                         env.copy_latches(op.other, on);
                     }
                 }
